@@ -110,6 +110,8 @@ class Slice:
                     if tgt and len(frames) < self.max_depth:
                         self.local_ret(tgt[0], frames + [(b, c)], k)
                         return
+                    if not tgt:
+                        self.sources.add(("callk", c.callee or c.u or "?", k))
         self.local(b, place[0], frames)
 
     def local(self, b, l, frames):
@@ -156,6 +158,21 @@ class Slice:
     def param(self, b, l, frames):
         if not frames:
             self.sources.add(("arg", norm(b.id), l))
+            # no calling context: continue in every workspace call site of this function (context-insensitive)
+            if b.f["dk"] != "Closure":
+                me = norm(b.id)
+                if not hasattr(self, "_callers"):
+                    self._callers = {}
+                    for cb in self.prog.bodies.values():
+                        for c in cb.calls():
+                            if c.callee:
+                                self._callers.setdefault(c.callee, []).append((cb, c))
+                for cb, c in self._callers.get(me, []):
+                    key = (cb.id, "callsite", c.bb, l)
+                    if key in self.visited or l - 1 >= len(c.args):
+                        continue
+                    self.visited.add(key)
+                    self.operand(cb, c.args[l - 1], [])
             return
         caller, call = frames[-1]
         rest = frames[:-1]
@@ -194,6 +211,9 @@ class Slice:
             return
         self.visited.add(key)
         for d in cb.defs.get(0, []):
+            if d[0] == "call" and k is not None:
+                # component k of a tuple returned by a call the slice does not look into
+                self.sources.add(("callk", d[2].callee or d[2].u or "?", k))
             if d[0] == "stmt":
                 if k is not None and d[3][0] == "agg" and d[3][1].get("k") == "tuple" and k < len(d[3][2]):
                     self.operand(cb, d[3][2][k], frames)
